@@ -77,6 +77,7 @@ type runOpts struct {
 	only     *regexp.Regexp
 	scan     *scanOpts
 	astScan  *astScanOpts
+	recScan  bool
 }
 
 func cmdRun(args []string) {
@@ -92,8 +93,9 @@ func cmdRun(args []string) {
 	only := fs.String("only", "", "regexp on obligation names")
 	verbose := fs.Bool("v", false, "print every obligation")
 	out := fs.String("out", "", "write JSON here")
+	rec := fs.Bool("scan-recursion", false, "scan the functions for call cycles without a variant")
 	fs.Parse(args)
-	o := &runOpts{repo: *repo, work: *work, timeout: *timeout, seed: *seed, cross: *cross, jobs: *jobs}
+	o := &runOpts{repo: *repo, work: *work, timeout: *timeout, seed: *seed, cross: *cross, jobs: *jobs, recScan: *rec}
 	for _, r := range strings.Split(*fre, ",") {
 		if r != "" {
 			o.funcs = append(o.funcs, regexp.MustCompile("^(?:"+r+")$"))
@@ -214,6 +216,13 @@ func runVerify(o *runOpts) (*RunOutput, error) {
 			allowed[a] = true
 		}
 		scanRes = append(scanRes, x.scanAstWrites(ld.allFuncs, allowed)...)
+	}
+	if o.recScan {
+		var fs []*ssa.Function
+		for _, k := range out.Functions {
+			fs = append(fs, ld.funcs[k])
+		}
+		scanRes = append(scanRes, x.scanRecursion(fs)...)
 	}
 	for _, cm := range ld.constMaps {
 		out.ConstTables[cm.g.Pkg.Pkg.Name()+"."+cm.g.Name()] = cm.src
